@@ -35,6 +35,12 @@ func main() {
 		runC02(*tier, *seed, out)
 	case "C15":
 		runC15(*tier, *seed, out)
+	case "C03":
+		runC03(*tier, *seed, out)
+	case "C14":
+		runC14(*tier, *seed, out)
+	case "C16":
+		runC16(*tier, *seed, out)
 	case "C09":
 		runC09(*tier, *seed, out)
 	case "C13":
